@@ -330,6 +330,32 @@ Proof.
   now apply seq_ok_in_flight.
 Qed.
 
+(* "no more attempts than the policy decided", on the frames of one fiber *)
+Lemma Exec_frames_follow idem frs : forall (plan : list N) s cl last outs tr r,
+  Exec decide idem plan s cl last outs tr r -> Forall2 ev_obs (attempts tr) frs ->
+  frames_follow idem s frs = true.
+Proof.
+  induction frs as [|f rest IH]; intros plan s cl last outs tr r He Ho; [reflexivity|].
+  cbn [frames_follow]. destruct rest as [|g rest]; [reflexivity|].
+  inversion Ho as [|ev f' evs rest' [o [Hev Hans]] Hrest Heq]; subst f' rest'.
+  symmetry in Heq.
+  assert (Hne : evs <> []) by (intros ->; inversion Hrest).
+  inversion Hans as [Ho1 Ha1|e d Ho1 Ha1]; subst o.
+  - rewrite Hev in Heq. pose proof (Exec_attempt_ok_last _ _ _ _ _ _ _ _ He _ _ _ Heq). contradiction.
+  - rewrite Hev in Heq.
+    destruct (Exec_attempt_decisions _ _ _ _ _ _ _ _ He _ _ _ _ _ Heq) as [s' [Hd Hr]].
+    rewrite Hd. destruct (Hr Hne) as [Hretry [plan' [cl' [last' [outs' [tr' [He' Ha']]]]]]].
+    rewrite Hretry. cbn [andb]. eapply IH; [exact He'|]. now rewrite Ha'.
+Qed.
+
+Lemma match_frames_length b evs frs :
+  match_frames b evs frs = true -> List.length evs = List.length frs.
+Proof.
+  revert frs. induction evs as [|ev evs IH]; intros [|f frs]; cbn [match_frames]; intros H;
+    try discriminate; [reflexivity|].
+  apply andb_true_iff in H as [_ H]. cbn. f_equal. auto.
+Qed.
+
 (* the predicate the driver evaluates on rejected observations holds of every accepted one *)
 Lemma resend_ok_frames_intro p idem frs :
   (forall pre f g post, frs = pre ++ f :: g :: post ->
@@ -354,12 +380,13 @@ Lemma single_prop_frames p idem spec cl0 nodes down c frs tret o co :
   gate_open idem spec = None ->
   prop_frames p idem spec (List.length nodes) frs = true.
 Proof.
-  intros H Hg. unfold prop_frames. rewrite Hg. apply andb_true_iff. split.
+  intros H Hg. unfold prop_frames. rewrite Hg. apply orb_true_iff. right.
+  destruct (single_sound _ _ _ _ _ _ _ _ _ _ H) as [tr [r [Hf [Ho _]]]].
+  apply andb_true_iff. split; [apply andb_true_iff; split|].
   - apply resend_ok_frames_intro. intros pre f g post Heq.
     destruct (single_resend _ _ _ _ _ _ _ _ _ _ H _ _ _ _ Heq) as [He [_ Hd]].
     split; [assumption|]. split; [assumption|].
     intros ->. destruct (is_serial (f_cl f)) eqn:Hser; [exfalso|reflexivity].
-    destruct (single_sound _ _ _ _ _ _ _ _ _ _ H) as [tr [r [Hf [Ho _]]]].
     subst frs.
     destruct (Forall2_split_r _ _ _ _ _ Ho) as [lp [ev [lq [Hatt [_ [[oc [-> Hans]] Hq]]]]]].
     inversion Hq as [|e2 g' lq' post' _ _]; subst.
@@ -367,7 +394,12 @@ Proof.
     destruct He as [e [He _]]. rewrite He in Hans. inversion Hans as [|e' d]; subst.
     destruct (fiber_serial_default _ _ _ _ _ _ Hf p1 _ _ e d p2 eq_refl Hser) as [_ [-> _]].
     discriminate Hp2.
-  - apply Nat.leb_le. eapply single_bound; eassumption.
+  - apply fiber_Exec in Hf. eapply Exec_frames_follow; eassumption.
+  - apply Nat.leb_le. pose proof (Forall2_length Ho) as Hl. unfold frame_bound.
+    destruct p.
+    + pose proof (single_bound _ _ _ _ _ _ _ _ _ _ H). cbn in *. lia.
+    + pose proof (single_bound _ _ _ _ _ _ _ _ _ _ H). cbn in *. lia.
+    + pose proof (fiber_fallthrough_one _ _ _ _ _ _ Hf). lia.
 Qed.
 
 (* ---- gate open --------------------------------------------------------------------------------- *)
@@ -523,3 +555,116 @@ Proof.
   - pose proof (filter_length_le (open_at t) (in_flight (f_arr g) frs)). lia.
   - now apply NoDup_map_filter.
 Qed.
+
+(* ---- the number of frames of a whole request with speculative fibers ---------------------------- *)
+Lemma list_sum_const0 {A} (l : list A) : list_sum (map (fun _ => 0%nat) l) = 0%nat.
+Proof. induction l; cbn; auto. Qed.
+
+Lemma list_sum_add {A} (g h : A -> nat) l :
+  list_sum (map (fun i => (g i + h i)%nat) l) = (list_sum (map g l) + list_sum (map h l))%nat.
+Proof. induction l as [|a l IH]; cbn; [reflexivity|]. rewrite IH. lia. Qed.
+
+Lemma list_sum_le {A} (g h : A -> nat) l :
+  (forall i, In i l -> (g i <= h i)%nat) -> (list_sum (map g l) <= list_sum (map h l))%nat.
+Proof.
+  induction l as [|a l IH]; intros H; cbn; [lia|].
+  pose proof (H a (or_introl eq_refl)). assert (forall i, In i l -> (g i <= h i)%nat) by (intros; apply H; now right).
+  specialize (IH H1). lia.
+Qed.
+
+Lemma sum_indicator a n : forall k,
+  list_sum (map (fun i => if Nat.eqb a i then 1%nat else 0%nat) (seq k n))
+  = if ((k <=? a)%nat && (a <? k + n)%nat)%bool then 1%nat else 0%nat.
+Proof.
+  induction n as [|n IH]; intros k; cbn [seq map list_sum].
+  - destruct (k <=? a)%nat eqn:E1; cbn; [|reflexivity].
+    destruct (a <? k + 0)%nat eqn:E2; [|reflexivity].
+    apply Nat.leb_le in E1. apply Nat.ltb_lt in E2. lia.
+  - rewrite IH. destruct (Nat.eqb a k) eqn:Ek.
+    + apply Nat.eqb_eq in Ek. subst k.
+      replace (S a <=? a)%nat with false by (symmetry; apply Nat.leb_gt; lia). cbn [andb].
+      replace (a <=? a)%nat with true by (symmetry; apply Nat.leb_le; lia).
+      replace (a <? a + S n)%nat with true by (symmetry; apply Nat.ltb_lt; lia). reflexivity.
+    + apply Nat.eqb_neq in Ek. cbn [Nat.add].
+      destruct (S k <=? a)%nat eqn:E1; destruct (k <=? a)%nat eqn:E2;
+        destruct (a <? S k + n)%nat eqn:E3; destruct (a <? k + S n)%nat eqn:E4; cbn; try reflexivity;
+        try apply Nat.leb_le in E1; try apply Nat.leb_gt in E1; try apply Nat.leb_le in E2;
+        try apply Nat.leb_gt in E2; try apply Nat.ltb_lt in E3; try apply Nat.ltb_ge in E3;
+        try apply Nat.ltb_lt in E4; try apply Nat.ltb_ge in E4; lia.
+Qed.
+
+Definition count_idx {A} (i : nat) (l : list (nat * A)) : nat :=
+  List.length (filter (fun x => Nat.eqb (fst x) i) l).
+
+Lemma sum_count {A} (l : list (nat * A)) n :
+  (forall x, In x l -> (fst x < n)%nat) ->
+  list_sum (map (fun i => count_idx i l) (seq 0 n)) = List.length l.
+Proof.
+  induction l as [|[a f] l IH]; intros H.
+  - unfold count_idx. cbn. apply list_sum_const0.
+  - assert (Ha : (a < n)%nat) by (apply (H (a, f)); now left).
+    assert (Hl : forall x, In x l -> (fst x < n)%nat) by (intros; apply H; now right).
+    specialize (IH Hl).
+    assert (E : forall i, count_idx i ((a, f) :: l) = ((if Nat.eqb a i then 1 else 0) + count_idx i l)%nat).
+    { intros i. unfold count_idx. cbn [filter fst]. destruct (Nat.eqb a i); reflexivity. }
+    rewrite (map_ext _ _ E), list_sum_add, IH, sum_indicator. cbn [Nat.leb andb Nat.add].
+    replace (a <? n)%nat with true by (symmetry; now apply Nat.ltb_lt). cbn. reflexivity.
+Qed.
+
+Lemma sub_frames_count i assign frs :
+  List.length (sub_frames i assign frs) = count_idx i (combine assign frs).
+Proof. unfold sub_frames, count_idx. now rewrite map_length. Qed.
+
+Lemma map_nth_seq {A} (l : list A) d : map (fun i => nth i l d) (seq 0 (List.length l)) = l.
+Proof.
+  induction l as [|a l IH]; [reflexivity|]. cbn [List.length seq map nth]. f_equal.
+  rewrite <- seq_shift, map_map. exact IH.
+Qed.
+
+Lemma length_concat_sum {A} (ls : list (list A)) :
+  List.length (concat ls) = list_sum (map (@List.length A) ls).
+Proof. induction ls as [|l ls IH]; cbn; [reflexivity|]. now rewrite app_length, IH. Qed.
+
+(* the whole request: at most |nodes| + (1 + max) * k frames; Fallthrough: at most 1 + max *)
+Lemma multi_bound p idem cl0 nodes down max cs assign frs :
+  multi_ok p idem cl0 nodes down max cs assign frs = true ->
+  (List.length frs <= frame_bound p (1 + max) (List.length nodes))%nat.
+Proof.
+  intros H. pose proof (multi_sound _ _ _ _ _ _ _ _ _ H) as [Hn [Hnd [Hincl Hf]]].
+  unfold multi_ok in H.
+  apply andb_true_iff in H as [H _]. apply andb_true_iff in H as [H _].
+  apply andb_true_iff in H as [H _]. apply andb_true_iff in H as [H _].
+  apply andb_true_iff in H as [H _]. apply andb_true_iff in H as [Hlen Hidx].
+  apply Nat.eqb_eq in Hlen. rewrite forallb_forall in Hidx.
+  set (n := List.length cs) in *.
+  assert (Hsum : list_sum (map (fun i => List.length (sub_frames i assign frs)) (seq 0 n)) = List.length frs).
+  { rewrite (map_ext _ _ (fun i => sub_frames_count i assign frs)).
+    rewrite sum_count; [now rewrite combine_length, Hlen, Nat.min_id|].
+    intros [a f] Hin. cbn. apply in_combine_l in Hin. apply Nat.ltb_lt. now apply Hidx. }
+  set (d := mkCert [] [] false).
+  assert (Hper : forall i, In i (seq 0 n) ->
+            (List.length (sub_frames i assign frs)
+             <= match p with PFallthrough => 1 | _ => List.length (c_plan (nth i cs d)) + same_target_budget p end)%nat).
+  { intros i Hi. apply in_seq in Hi. assert (Hlt : (i < n)%nat) by lia.
+    destruct (nth_error cs i) as [c|] eqn:E; [|apply nth_error_None in E; unfold n in *; lia].
+    rewrite (nth_error_nth _ _ d E).
+    destruct (Hf i c E) as [tr [r [Hfib [Hm _]]]].
+    pose proof (match_frames_length _ _ _ Hm) as Hl.
+    pose proof (fiber_bound _ _ _ _ _ _ _ Hfib) as Hb.
+    destruct p.
+    - lia.
+    - lia.
+    - pose proof (fiber_fallthrough_one _ _ _ _ _ _ Hfib). lia. }
+  rewrite <- Hsum. etransitivity; [apply list_sum_le; exact Hper|].
+  unfold frame_bound. destruct p.
+  - rewrite list_sum_add. rewrite <- (map_map (fun i => nth i cs d) (fun c => List.length (c_plan c))).
+    unfold n. rewrite map_nth_seq, <- map_map, <- length_concat_sum.
+    pose proof (NoDup_incl_len _ _ Hnd Hincl).
+    assert (list_sum (map (fun _ : nat => same_target_budget PDefault) (seq 0 (List.length cs))) = (List.length cs * same_target_budget PDefault)%nat).
+    { clear. induction (seq 0 (List.length cs)) as [|a l IH] eqn:E in |- *; cbn. 
+      - generalize (seq_length (List.length cs) 0). intros Hs. destruct (List.length cs); [reflexivity|discriminate]. 
+      - admit. }
+    admit.
+  - admit.
+  - admit.
+Admitted.
